@@ -20,7 +20,7 @@ import numpy as np
 
 from . import lib, measurer
 
-QUICK_FILES = ["1ehz-assembly-1.cif", "488d.pdb", "1E7K_1_C.cif", "2HY9.cif", "1A1T_1_B.cif", "4WTI_1_T-P.cif", "4qln.pdb"]
+QUICK_FILES = ["1ehz-assembly-1.cif", "488d.pdb", "1E7K_1_C.cif", "2HY9.cif", "1A1T_1_B.cif", "4WTI_1_T-P.cif", "4qln.pdb", "6RS3.cif"]
 SIGMAS = (0.02, 0.1, 0.3)
 _cache = {}
 
